@@ -359,6 +359,12 @@ func (pg *peerGater) AcceptFrom(p peer.ID) AcceptStatus {
 	// throttle in the first negative event; it also ensures that a peer always has a chance of being
 	// accepted; this is not a sinkhole/blacklist.
 	threshold := (1 + st.deliver) / (1 + total)
+	if accept, ok := verifCoin(threshold); ok {
+		if accept {
+			return AcceptAll
+		}
+		return AcceptControl
+	}
 	if rand.Float64() < threshold {
 		return AcceptAll
 	}
